@@ -97,6 +97,7 @@ template <class G> void c08State(const G &g, const Model &m, ClauseSink &sink) {
                 ++it;
             }
         }
+        digest(edgeSeqStr<G>(a));
         if (a != b) sink.fail("c08.edges", "post-increment traversal " + edgeSeqStr<G>(b) + " differs from pre-increment traversal " + edgeSeqStr<G>(a) + " on " + m.str());
         if (a != c) sink.fail("c08.edges", "a second traversal " + edgeSeqStr<G>(c) + " differs from the first " + edgeSeqStr<G>(a) + " on " + m.str());
         auto E = g.edges();
@@ -230,6 +231,7 @@ template <class G> void c09State(const G &g, const Model &m, ClauseSink &sink) {
                 rm.n = m.n;
                 for (auto &p : m.e) rm.e[{p.first.second, p.first.first}] = p.second;
                 D r = g.getReversedGraph();
+                digest(keyOf(r, false));
                 sameDirected(r, rm, "getReversedGraph()", "c09.reverse");
                 D rr = r.getReversedGraph();
                 if (!(rr == g) || !(g == rr)) sink.fail("c09.reverse", "reversing twice does not give a graph equal to the original " + m.str());
@@ -266,6 +268,7 @@ template <class G> void c09State(const G &g, const Model &m, ClauseSink &sink) {
                     dm.e[{p.first.second, p.first.first}] = p.second;
                 }
                 D d = g.getDirectedGraph();
+                digest(keyOf(d, false));
                 sameDirected(d, dm, "getDirectedGraph()", "c09.directedFromUndirected");
                 U back(d);
                 if (!(back == g) || !(g == back)) sink.fail("c09.directedFromUndirected", "undirected -> directed -> undirected is not the identity on " + m.str());
@@ -313,6 +316,7 @@ template <class G, class Elem, bool withSets, class MakeElem, class AddOne> void
         std::string text;
         for (auto &it : order) text += "(" + std::to_string(it.i) + "," + std::to_string(it.j) + ";" + std::to_string(it.v) + ")";
         size_t wantSize = any ? mx + 1 : 0;
+        digest(keyOf(built, false));
         if (built.getSize() != wantSize)
             rep.violation("C09:" + cfgName + ":c09.ctor.size", "constructed from " + container + " [" + text + "]: getSize() " + std::to_string(built.getSize()) + ", expected " + std::to_string(wantSize), "--ctor-case " + container);
         else if (!(built == exp) || !(exp == built) || keyOf(built, true) != keyOf(exp, true))
@@ -417,6 +421,7 @@ template <class G> void c10State(const G &g, const Model &m, ClauseSink &sink, b
                 ++sink.evaluated;
                 try {
                     G sub = algorithms::getSubgraph(g, S);
+                    digestNum(sub.getEdgeNumber());
                     if (!lightSame(sub, ind) || (tmask == 0 && !(sub == fresh<G>(ind)))) {
                         ClauseSink inner;
                         checkState(sub, ind, inner);
